@@ -63,6 +63,31 @@ theorem foldl_covers (cs : List Loc) (m : Int × Int) (c : Loc) (hc : c ∈ cs) 
     · subst h; exact posLe_trans (maxEnd_covers m c) (foldl_ge cs (maxEnd m c))
     · exact ih (maxEnd m x) h
 
+/-- the range of a function symbol contains the name it is declared by, whichever comes first, and the
+    function itself — for every pair of Locs such that the name ends inside the function's extent (the name
+    of `function f() … end` lies inside the function; the name of `local f = function … end` ends before it) -/
+theorem funcSymbolLoc_contains (v f : Loc) (hnz : isInitialLoc v = false) (hv : wellFormed v = true)
+    (hf : wellFormed f = true) (hend : posLe v.el v.ec f.el f.ec = true) :
+    contains (funcSymbolLoc v f) v = true ∧ contains (funcSymbolLoc v f) f = true ∧
+    wellFormed (funcSymbolLoc v f) = true := by
+  unfold funcSymbolLoc
+  by_cases hc : (v.sl > f.sl || (v.sl == f.sl && v.sc ≥ f.sc)) = true
+  · simp only [hnz, hc, Bool.false_or, if_true]
+    unfold contains wellFormed posLe at *
+    simp at *
+    omega
+  · have hc' : (decide (v.sl > f.sl) || (v.sl == f.sl && decide (v.sc ≥ f.sc))) = false := by simpa using hc
+    simp only [hnz, hc', Bool.false_or, Bool.false_eq_true, if_false]
+    unfold contains wellFormed posLe at *
+    simp at *
+    omega
+#print axioms funcSymbolLoc_contains
+
+/-- the former finding C19-K2: `local f = function(a) … end` — name at 1:6-1:7, function at 1:10-3:3: the symbol
+    range is 1:6-3:3; for `function f() … end` (function 1:0-1:20, name 1:9-1:10) it is the function's range -/
+example : funcSymbolLoc ⟨1, 6, 1, 7⟩ ⟨1, 10, 3, 3⟩ = ⟨1, 6, 3, 3⟩ ∧ funcSymbolLoc ⟨1, 9, 1, 10⟩ ⟨1, 0, 1, 20⟩ = ⟨1, 0, 1, 20⟩ := by
+  decide
+
 /-- the rewritten range keeps the start of the declaring identifier -/
 theorem extend_start (d : Loc) (cs : List Loc) : (extend d cs).sl = d.sl ∧ (extend d cs).sc = d.sc := by
   simp [extend]
